@@ -1,6 +1,8 @@
 package main
 
 import (
+	"bytes"
+	"crypto/sha512"
 	"fmt"
 	"math/big"
 	"math/rand"
@@ -297,8 +299,31 @@ func (e *engine) runC14() {
 		a, b := e.newKey(), e.newKey()
 		op := fmt.Sprintf("sym a=%s b=%s", lib.Hex(a.seed), lib.Hex(b.seed))
 		mon := lib.Recover(func() string {
-			xa := extra25519.PrivateKeyToCurve25519(a.priv)[:32]
-			xb := extra25519.PrivateKeyToCurve25519(b.priv)[:32]
+			xa64 := extra25519.PrivateKeyToCurve25519(a.priv)
+			xb64 := extra25519.PrivateKeyToCurve25519(b.priv)
+			// ALL 64 returned bytes are observed: DeriveKey hashes the full slice, bytes 32..63 included
+			for _, p := range []struct {
+				got  []byte
+				seed []byte
+			}{{xa64, a.seed}, {xb64, b.seed}} {
+				want := sha512.Sum512(p.seed)
+				want[0] &= 248
+				want[31] &= 127
+				want[31] |= 64
+				if len(p.got) != 64 {
+					return fmt.Sprintf("PrivateKeyToCurve25519 returns %d bytes, documented: the 64-byte clamped SHA-512 of the seed", len(p.got))
+				}
+				if !bytes.Equal(p.got[:32], want[:32]) {
+					return "PrivateKeyToCurve25519 is not the clamped SHA-512 of the seed (scalar half, bytes 0..31)"
+				}
+				if !bytes.Equal(p.got[32:], want[32:]) {
+					return "PrivateKeyToCurve25519 is not the clamped SHA-512 of the seed (bytes 32..63 differ from the hash prefix half)"
+				}
+			}
+			if extra := extra25519.PrivateKeyToCurve25519(a.priv); !bytes.Equal(extra, xa64) {
+				return "PrivateKeyToCurve25519 is not deterministic"
+			}
+			xa, xb := xa64[:32], xb64[:32]
 			ma, oka := extra25519.PublicKeyToCurve25519(a.pub)
 			mb, okb := extra25519.PublicKeyToCurve25519(b.pub)
 			if !oka || !okb {
